@@ -1,4 +1,6 @@
 #include "common.h"
+#include <vector>
+#include <cstdlib>
 #include <unistd.h>
 FILE* uv::out = NULL;
 static uv::Cmd cmds[] = {
@@ -8,6 +10,7 @@ static uv::Cmd cmds[] = {
 	{"api", cmd_api},
 	{"dq", cmd_dq},
 	{"threads", cmd_threads},
+	{"emit", cmd_emit},
 	{"json", cmd_json},
 	{"promela", cmd_promela},
 	{"lua", cmd_lua},
@@ -17,6 +20,20 @@ static uv::Cmd cmds[] = {
 };
 int main(int argc, char** argv) {
 	if (argc < 2) { fprintf(stderr, "usage: uvharness <cmd> [args]\n"); return 2; }
+	// UV_HEAP_PERTURB=<seed>: leave a seed-dependent pattern of holes in the heap, so that the relative
+	// order of later allocations (and with it anything that depends on pointer values) differs between runs
+	if (const char* hp = getenv("UV_HEAP_PERTURB")) {
+		unsigned long x = strtoul(hp, NULL, 10) * 2654435761UL + 12345;
+		std::vector<void*> blocks;
+		for (int i = 0; i < 4000; i++) {
+			x = x * 6364136223846793005UL + 1442695040888963407UL;
+			blocks.push_back(malloc(16 + (x >> 33) % 700));
+		}
+		for (size_t i = 0; i < blocks.size(); i++) {
+			x = x * 6364136223846793005UL + 1442695040888963407UL;
+			if ((x >> 40) % 3) free(blocks[i]);
+		}
+	}
 	uv::out = fdopen(dup(1), "w");
 	dup2(2, 1);
 	for (uv::Cmd* c = cmds; c->name; c++)
